@@ -259,9 +259,13 @@ def current_rereg():
 
 
 # ================================================================== workers (fresh subprocesses)
+def inv_path():
+    return os.path.join(C.BUILD, "c17", "inventory-%s.json" % hashlib.sha1(os.path.realpath(C.REPO).encode()).hexdigest()[:10])
+
+
 def spawn(mode, job, timeout=900):
     env = dict(os.environ)
-    env.update({"PYTHONPATH": C.REPO, "PYTHONHASHSEED": "0", "PYTHONDONTWRITEBYTECODE": "1",
+    env.update({"PYTHONPATH": C.REPO, "PYTHONHASHSEED": "0", "PYTHONDONTWRITEBYTECODE": "1", "OFXV_C17_INV": inv_path(),
                 "XDG_DATA_HOME": os.path.join(C.BUILD, "c17", "xdg"), "XDG_CONFIG_HOME": os.path.join(C.BUILD, "c17", "xdg")})
     p = subprocess.run(["timeout", str(timeout), C.PY, "-m", "ofxv.props.c17", mode], input=json.dumps(job), cwd=TOOLS, env=env,
                        stdout=subprocess.PIPE, stderr=subprocess.PIPE, text=True)
@@ -426,6 +430,38 @@ def w_dispatch(job):
 
 
 # ------------------------------------------------------------------ purity worker
+class StrSub(str):
+    """a str subclass: equal to, and hashing like, the plain string"""
+
+
+def mk_eq():
+    """families of arguments that are EQUAL (== and same hash, so any cache keyed on the value cannot tell them apart) but not
+    identical, and whose written TEXT differs or must not: the same instant in different zones, the same offset under different zone
+    names, equal Decimals of different exponent, 1 / True, a str subclass.  One group per member (`eq:<family>.<member>`), so that the
+    clean-process reference of a member is that call ALONE in a fresh interpreter."""
+    import datetime as dt, decimal
+    tz = lambda h, n=None: dt.timezone(dt.timedelta(hours=h), n) if n else dt.timezone(dt.timedelta(hours=h))
+    return {
+        "dt.ny": dt.datetime(2023, 1, 5, 23, 30, tzinfo=tz(-5, "EST")),
+        "dt.london": dt.datetime(2023, 1, 6, 4, 30, tzinfo=dt.timezone.utc),
+        "dt.paris": dt.datetime(2023, 1, 6, 5, 30, tzinfo=tz(1, "CET")),
+        "dt.chicago_dst": dt.datetime(2023, 1, 5, 23, 30, tzinfo=tz(-5, "CDT")),
+        "dt.unnamed": dt.datetime(2023, 1, 5, 23, 30, tzinfo=tz(-5)),
+        "dt.kolkata": dt.datetime(2023, 1, 6, 10, 0, tzinfo=dt.timezone(dt.timedelta(hours=5, minutes=30), "IST")),
+        "tm.est": dt.time(12, 0, 0, tzinfo=tz(-5, "EST")),
+        "tm.xyz": dt.time(12, 0, 0, tzinfo=tz(-5, "XYZ")),
+        "tm.utc": dt.time(17, 0, 0, tzinfo=dt.timezone.utc),
+        "dec.1_50": decimal.Decimal("1.50"),
+        "dec.1_5": decimal.Decimal("1.5"),
+        "dec.15e_1": decimal.Decimal("15E-1"),
+        "dec.1_500": decimal.Decimal("1.500"),
+        "int.one": 1,
+        "int.true": True,
+        "str.plain": "a",
+        "str.sub": StrSub("a"),
+    }
+
+
 TREE_CALLS = ["from_etree", "groom", "ungroom", "tostring", "tostring_unclosed"]
 INST_CALLS = ["to_etree", "serialize_xml", "serialize_sgml"]
 
@@ -448,6 +484,51 @@ class Lib:
         self.keep = []
         self.held = {}
         self.classes = sorted(n for n, c in vars(M).items() if inspect.isclass(c) and issubclass(c, Aggregate))
+        self.eq = mk_eq()
+        self._mx = None
+
+    def mx_info(self):
+        """mutex groups / hooks per class, read in ANOTHER process (reading a class table that is an iterator would consume it here)"""
+        if self._mx is None:
+            path = os.environ.get("OFXV_C17_INV")
+            if path and os.path.exists(path):
+                with open(path) as f:
+                    self._mx = json.load(f)["mx"]
+            else:
+                self._mx = spawn("inventory", {"repo": C.REPO})["mx"]
+        return self._mx
+
+    def inventory_mx(self):
+        out = {}
+        for n in self.classes:
+            cls = getattr(self.M, n)
+            def groups(attr):
+                try:
+                    return [list(g) for g in (getattr(cls, attr, None) or [])]
+                except Exception:      # noqa
+                    return []
+            opt, req = groups("optionalMutexes"), groups("requiredMutexes")
+            hook = any("validate_args" in vars(k) for k in cls.__mro__ if k is not self.Aggregate and k is not object)
+            if opt or req or hook:
+                out[n] = {"opt": opt, "req": req, "hook": hook}
+        return out
+
+    def snapshot_tables(self, cls):
+        """class-level tables WITHOUT consuming them: type and content of a list/tuple, the state of a generator, the position of an iterator"""
+        import operator
+        out = []
+        for attr in ("optionalMutexes", "requiredMutexes"):
+            v = getattr(cls, attr, None)
+            if v is None or isinstance(v, (list, tuple)):
+                out.append((attr, type(v).__name__, repr(v)))
+            elif self.inspect.isgenerator(v):
+                out.append((attr, "generator", self.inspect.getgeneratorstate(v)))
+            else:
+                try: hint = operator.length_hint(v)
+                except Exception: hint = None      # noqa
+                out.append((attr, type(v).__name__, hint))
+        out.append(("spec", "keys", repr(list(cls.spec))))
+        return out
 
     # ---- deep structural dumps (no addresses, no floats)
     def dump_tree(self, e):
@@ -536,24 +617,125 @@ class Lib:
         walk(a)
         return out
 
-    def gen_inst(self, cls, full, depth=0):
+    def gen_value(self, conv, full, depth):
+        T = self.T
+        if isinstance(conv, T.SubAggregate): return self.gen_inst(conv.__type__, full and depth < 1, depth + 1)
+        if isinstance(conv, T.OneOf): return conv.valid[0]
+        if isinstance(conv, T.Bool): return "Y"
+        if isinstance(conv, T.Time): return "123456.789[-5:EST]"
+        if isinstance(conv, T.DateTime): return "20240229123456.789[-5:EST]"
+        if isinstance(conv, T.Decimal): return "1.50"
+        if isinstance(conv, T.Integer): return "7"
+        if isinstance(conv, T.String): return "A"
+        raise KeyError("no generic value")
+
+    def gen_kwargs(self, cls, full, depth=0, only=None):
         T = self.T
         if depth > 5: raise RecursionError("depth")
         kw = {}
         for name, conv in cls.spec.items():
             if isinstance(conv, (T.ListAggregate, T.ListElement, T.Unsupported)): continue
-            if not (full or getattr(conv, "required", False)): continue
-            if isinstance(conv, T.SubAggregate): v = self.gen_inst(conv.__type__, full and depth < 1, depth + 1)
-            elif isinstance(conv, T.OneOf): v = conv.valid[0]
-            elif isinstance(conv, T.Bool): v = "Y"
-            elif isinstance(conv, T.Time): v = "123456.789[-5:EST]"
-            elif isinstance(conv, T.DateTime): v = "20240229123456.789[-5:EST]"
-            elif isinstance(conv, T.Decimal): v = "1.50"
-            elif isinstance(conv, T.Integer): v = "7"
-            elif isinstance(conv, T.String): v = "A"
-            else: continue
-            kw[name] = v
-        return cls(**kw)
+            if only is not None:
+                if name not in only: continue
+            elif not (full or getattr(conv, "required", False)): continue
+            try: kw[name] = self.gen_value(conv, full, depth)
+            except KeyError: continue
+        return kw
+
+    def gen_inst(self, cls, full, depth=0):
+        return cls(**self.gen_kwargs(cls, full, depth))
+
+    def mx_variants(self, cls, info, breaking_only=False):
+        """keyword sets for one class: valid ones, and ones that break each exclusivity group (both members of an optional group; none /
+        two members of a required group), each to be constructed and converted REPEATEDLY and after one another"""
+        base = self.gen_kwargs(cls, False)
+        members = {m for g in info["opt"] + info["req"] for m in g}
+        ok = dict(base)
+        for g in info["req"]:
+            if not any(m in ok for m in g):
+                ok.update(self.gen_kwargs(cls, False, only=g[:1]))
+        for g in info["opt"]:                                  # a valid instance keeps at most one member of each optional group
+            present = [m for m in g if m in ok]
+            for m in present[1:]: ok.pop(m, None)
+        vs = []
+        for i, g in enumerate(info["opt"]):
+            kw = dict(ok); kw.update(self.gen_kwargs(cls, False, only=g))
+            vs.append(("opt%d_all_of_%s" % (i, "+".join(g)), kw))
+        for i, g in enumerate(info["req"]):
+            kw = {k: v for k, v in ok.items() if k not in g}
+            vs.append(("req%d_none_of_%s" % (i, "+".join(g)), kw))
+            kw2 = dict(kw); kw2.update(self.gen_kwargs(cls, False, only=g[:2]))
+            vs.append(("req%d_two_of_%s" % (i, "+".join(g)), kw2))
+        if breaking_only:
+            return vs[::-1]
+        # the sets that should be REFUSED come first: the first thing this process ever asks of the class is then a refusal
+        return vs + [("valid", ok), ("required_only", base), ("everything", self.gen_kwargs(cls, True)), ("nothing", {})]
+
+    def tree_of(self, cls, kw):
+        ET = self.ET
+        root = ET.Element(cls.__name__)
+        for name in cls.spec:
+            if name in kw:
+                v = kw[name]
+                if isinstance(v, self.Aggregate): root.append(v.to_etree())
+                else: ET.SubElement(root, name.upper()).text = v
+        return root
+
+    def rec(self, out, key, call, fn, reps):
+        """record of `reps` evaluations of fn(): distinct digests in order of appearance"""
+        digs, first = [], None
+        for _ in range(reps):
+            try: o = ("ok", fn())
+            except Exception as e: o = ("err", type(e).__name__)      # noqa
+            dg = hashlib.sha1(repr(o).encode("utf-8", "backslashreplace")).hexdigest()[:16]
+            if dg not in digs: digs.append(dg)
+            if first is None: first = o
+        out.append({"k": key, "c": call, "d": digs, "mut": False, "ok": first[0] == "ok", "n": reps, "p": repr(first)[:160], "mutp": ""})
+
+    def run_mx(self, group, out):
+        kind, name = group.split(":", 1)
+        cls = getattr(self.M, name)
+        t0 = self.snapshot_tables(cls)
+        try:
+            variants = self.mx_variants(cls, self.mx_info().get(name, {"opt": [], "req": [], "hook": True}), breaking_only=(kind == "mxr"))
+        except Exception as e:      # noqa
+            variants = [("nothing", {})]
+        seen = {}
+        for rnd in range(3):                                   # A B C ... A B C ... A B C: every set again after all the others
+            for vname, kw in variants:
+                try: o1 = ("ok", self.dump_inst(cls(**kw)))
+                except Exception as e: o1 = ("err", type(e).__name__)      # noqa
+                try: o2 = ("ok", self.dump_inst(self.Aggregate.from_etree(self.tree_of(cls, kw))))
+                except Exception as e: o2 = ("err", type(e).__name__)      # noqa
+                for call, o in (("construct", o1), ("from_etree", o2)):
+                    dg = hashlib.sha1(repr(o).encode("utf-8", "backslashreplace")).hexdigest()[:16]
+                    r = seen.setdefault((call, vname), {"k": "%s|%s~%s" % (call, group, vname), "c": call, "d": [], "mut": False, "ok": o[0] == "ok",
+                                                         "n": 0, "p": repr(o)[:160], "mutp": ""})
+                    r["n"] += 1
+                    if dg not in r["d"]:
+                        r["d"].append(dg)
+                        if len(r["d"]) == 2: r["p"] = "round 1: %s; round %d: %s" % (r["p"][:70], rnd + 1, repr(o)[:70])
+        out.extend(seen.values())
+        t1 = self.snapshot_tables(cls)
+        out.append({"k": "class_tables|%s" % group, "c": "class_tables", "d": [hashlib.sha1(repr(t0).encode()).hexdigest()[:16]], "mut": t0 != t1, "ok": True, "n": 1,
+                    "p": repr(t0)[:160], "mutp": "" if t0 == t1 else "class-level table of %s changed while instances were built: %s"
+                    % (name, "; ".join("%s: %r -> %r" % (a[0], a[1:], b[1:]) for a, b in zip(t0, t1) if a != b)[:300])})
+
+    def run_eq(self, group, reps, out):
+        T, M = self.T, self.M
+        name = group.split(":", 1)[1]
+        v = self.eq[name]
+        fam = name.split(".")[0]
+        stmt = lambda **kw: self.ET.tostring(M.STMTTRN(**dict(dict(trntype="DEBIT", dtposted=self.eq["dt.london"], trnamt="2.00", fitid="1"), **kw)).to_etree())
+        calls = {"dt": [("unconvert", lambda: T.DateTime().unconvert(v)), ("unconvert_required", lambda: T.DateTime(required=True).unconvert(v)),
+                        ("serialize_xml", lambda: stmt(dtposted=v)),
+                        ("serialize_sgml", lambda: self.U.tostring_unclosed_elements(M.STMTTRN(trntype="DEBIT", dtposted=v, trnamt="2.00", fitid="1").to_etree()))],
+                 "tm": [("unconvert", lambda: T.Time().unconvert(v)), ("unconvert_required", lambda: T.Time(required=True).unconvert(v))],
+                 "dec": [("unconvert", lambda: T.Decimal().unconvert(v)), ("unconvert_scaled", lambda: T.Decimal(2).unconvert(v)), ("serialize_xml", lambda: stmt(trnamt=v))],
+                 "int": [("unconvert", lambda: T.Integer().unconvert(v)), ("unconvert_bool", lambda: T.Bool().unconvert(v)), ("convert_int", lambda: repr(T.Integer().convert(v)))],
+                 "str": [("unconvert", lambda: T.String(10).unconvert(v)), ("serialize_xml", lambda: stmt(fitid=v))]}[fam]
+        for cname, fn in calls:
+            self.rec(out, "%s|%s" % (cname, group), cname, fn, max(1, min(reps, 3)))
 
     def pick(self, n, sel):
         """indices 0..n-1 kept by a selection [seed, fraction] (None = all); index 0 always kept"""
@@ -581,6 +763,8 @@ class Lib:
                     pass
         elif kind == "xml":
             b["x"] = self.ET.fromstring(XMLS[name])
+        elif kind in ("mx", "mxr", "eq"):
+            pass
         elif kind == "gen":
             b["gen"] = []
             for full in (False, True):
@@ -612,6 +796,10 @@ class Lib:
         elif kind == "xml":
             for c in TREE_CALLS:
                 self.checked(c, b["x"], reps, out, "%s|%s" % (c, group))
+        elif kind in ("mx", "mxr"):
+            self.run_mx(group, out)
+        elif kind == "eq":
+            self.run_eq(group, reps, out)
         else:
             for full, a, o in b["gen"]:
                 key = "%s|%s:%d" % ("%s", group, full)
@@ -733,7 +921,7 @@ def w_script(job):
 
 def w_inventory(job):
     L = Lib(job["repo"])
-    return {"docs": sorted(L.docs), "xml": sorted(XMLS), "classes": L.classes}
+    return {"docs": sorted(L.docs), "xml": sorted(XMLS), "classes": L.classes, "mx": L.inventory_mx(), "eq": list(L.eq)}
 
 
 # ================================================================== main-process side
@@ -920,8 +1108,17 @@ def run(rep, tier, rng):
     dcases += [gen_dcase(rng) for _ in range(30000 if thorough else 2000)]
 
     # ---------------- (b) purity / repeatability / threads on the implementation ----------------
+    if os.path.exists(inv_path()):
+        os.remove(inv_path())
     inv = spawn("inventory", {"repo": C.REPO})
-    groups = ["doc:" + d for d in inv["docs"]] + ["xml:" + x for x in inv["xml"]]
+    with open(inv_path(), "w") as f:
+        json.dump(inv, f)
+    # eq: equal-but-not-identical arguments, one group per member; mx: accepted and REJECTED constructions / conversions of every class
+    # with exclusivity groups or a validate_args hook, repeated, with the class-level tables snapshotted around them
+    groups = (["doc:" + d for d in inv["docs"]] + ["xml:" + x for x in inv["xml"]] + ["eq:" + n for n in inv["eq"]]
+              + ["mx:" + c for c in sorted(inv["mx"])]
+              # mxr: only the sets that break a group, last group first (another refusal is the first thing asked of the class)
+              + ["mxr:" + c for c in sorted(inv["mx"]) if inv["mx"][c]["opt"] or inv["mx"][c]["req"]])
     gens = ["gen:" + c for c in inv["classes"]]
     base = [["chk", g, None, 1] for g in groups + gens]
     scripts = [("baseline", base)]
@@ -1024,12 +1221,15 @@ def run(rep, tier, rng):
                 "rebound or an unconvert completed. (b) purity: every call on every document / subtree / nested instance / generically constructed "
                 "instance of every exported Aggregate class, in a clean process (baseline), in rotated and reversed orders, after random histories "
                 "(date-time conversions by kept and collected instances, failing documents, unknown tags, warning filters, Time operations, datetime "
-                "subclasses), repeated up to 50 times, and in 1..16 threads with hammer threads re-registering; non-trivial = the call returned a value; "
+                "subclasses), plus eq groups (equal-but-not-identical arguments: one instant in several zones, one offset under several zone names, equal Decimals of "
+                "different exponent, 1/True, a str subclass - each member's written TEXT against that call alone in a clean process) and mx groups (valid and "
+                "REJECTED keyword sets / element trees of every class with exclusivity groups or a validate_args hook, three rounds each after all the others, class-level "
+                "tables snapshotted without consuming them), repeated up to 50 times, and in 1..16 threads with hammer threads re-registering; non-trivial = the call returned a value; "
                 "distinct by (run, call, input)")
 
 
 def group_of_key(k):
-    g = k.split("|", 1)[1].split("#")[0].split("@")[0]
+    g = k.split("|", 1)[1].split("#")[0].split("@")[0].split("~")[0]
     return g[:-2] if g.startswith("gen:") else g
 
 
@@ -1062,6 +1262,11 @@ def shrink(script, key, expect, budget=14):
 
 def replay(obj):
     C.use_repo()
+    os.makedirs(os.path.join(C.BUILD, "c17", "xdg"), exist_ok=True)
+    if os.path.exists(inv_path()):
+        os.remove(inv_path())
+    with open(inv_path(), "w") as f:
+        json.dump(spawn("inventory", {"repo": C.REPO}), f)
     r = obj["replay"]
     if r["mode"] == "dispatch":
         rereg = current_rereg()
